@@ -19,7 +19,7 @@ void VH_FN(std::map<std::string, std::vector<fmm::Segment>>& out) {
 #if VH_PER
     out["c10"].push_back(sch::c10OmpSegment<E>(10, 150));
 #endif
-    out["c12"].push_back(sch::c12ExecSegment<E>(VH_PER ? 8 : 16, VH_PER ? 120 : 400));
+    out["c12"].push_back(sch::c12ExecSegment<E>(VH_PER ? 12 : 24, VH_PER ? 180 : 600));
 #endif
     out["c18"].push_back(sch::c18OmpSegment<E>(VH_TSAN ? 4 : 8, VH_TSAN ? 40 : 300, VH_TSAN));
 }
